@@ -59,11 +59,51 @@ theorem mem_dedup {α : Type} [DecidableEq α] (x : α) (l : List α) : x ∈ de
   | nil => simp [dedup]
   | cons a r ih => simp only [dedup, mem_insertNew, ih, List.mem_cons]
 
+theorem mem_foldl_insertNew {α : Type} [DecidableEq α] (x : α) (l : List α) :
+    ∀ acc : List α, x ∈ l.foldl (fun a y => insertNew y a) acc ↔ x ∈ acc ∨ x ∈ l := by
+  induction l with
+  | nil => intro acc; simp
+  | cons b r ih =>
+    intro acc
+    simp only [List.foldl_cons, ih, mem_insertNew, List.mem_cons]
+    constructor
+    · rintro ((h | h) | h)
+      · exact Or.inr (Or.inl h)
+      · exact Or.inl h
+      · exact Or.inr (Or.inr h)
+    · rintro (h | h | h)
+      · exact Or.inl (Or.inr h)
+      · exact Or.inl (Or.inl h)
+      · exact Or.inr h
+
+theorem mem_orderGraph_foldl (tbl : List (String × List (Ev L))) (e : L × L) :
+    ∀ acc : List (L × L),
+      e ∈ tbl.foldl (fun acc t => (edgesFrom [] t.2).foldl (fun a x => insertNew x a) acc) acc ↔
+        e ∈ acc ∨ ∃ t ∈ tbl, e ∈ edgesFrom [] t.2 := by
+  induction tbl with
+  | nil => intro acc; simp
+  | cons t r ih =>
+    intro acc
+    simp only [List.foldl_cons, ih, mem_foldl_insertNew, List.mem_cons, exists_eq_or_imp]
+    constructor
+    · rintro ((h | h) | h)
+      · exact Or.inl h
+      · exact Or.inr (Or.inl h)
+      · exact Or.inr (Or.inr h)
+    · rintro (h | h | h)
+      · exact Or.inl (Or.inl h)
+      · exact Or.inl (Or.inr h)
+      · exact Or.inr h
+
+/-- the order graph is exactly the set of edges the entries contribute -/
+theorem mem_orderGraph (tbl : List (String × List (Ev L))) (e : L × L) :
+    e ∈ orderGraph tbl ↔ ∃ t ∈ tbl, e ∈ edgesFrom [] t.2 := by
+  simp [orderGraph, mem_orderGraph_foldl]
+
 /-- every edge a table entry contributes is in the table's order graph -/
 theorem edge_mem_orderGraph (tbl : List (String × List (Ev L))) (n : String) (p : List (Ev L))
-    (hm : (n, p) ∈ tbl) (e : L × L) (he : e ∈ edgesFrom [] p) : e ∈ orderGraph tbl := by
-  simp only [orderGraph, mem_dedup, List.mem_flatMap]
-  exact ⟨(n, p), hm, he⟩
+    (hm : (n, p) ∈ tbl) (e : L × L) (he : e ∈ edgesFrom [] p) : e ∈ orderGraph tbl :=
+  (mem_orderGraph tbl e).2 ⟨(n, p), hm, he⟩
 
 /-- the certificate is a rank function -/
 theorem acyclicB_rank (es : List (L × L)) (h : acyclicB es = true) :
